@@ -31,7 +31,7 @@ RULE = ("cases = input (matrix r x c <= 3x4 over 2-3 letters exhaustive-sampled 
         "x class (RunLength2dArray, RunLengthRaggedArray) x operation (to_array, len/shape/size, row int / slice / list / mask, "
         "element, integer column, column range with positive step (any bounds, non-empty result) or negative step (bounds inside "
         "the rows; 700 extra stepped column-range cases per quick run), row-wise sum any all max mean argmax, column sum / mean / counts / any, ravel, concatenate, np.sum/mean/max, "
-        "unary / scalar / column ufunc on either side); distinct = distinct (input, class, operation); non-trivial = >= 2 rows or >= 2 runs")
+        "unary / scalar / column ufunc on either side; column-wise any both of a comparison result and of the matrix's own cells); distinct = distinct (input, class, operation); non-trivial = >= 2 rows or >= 2 runs")
 EXHAUSTIVE = {"quick": False, "thorough": False}
 CORRESPONDENCE_ONLY = ["mean (float division)", "np.where on ragged run-length arrays"]
 ASSUMPTIONS = ["rows have length >= 1 (the property's domain)"]
